@@ -1,6 +1,3 @@
 package main
 
-func cmdSelftest(args []string) int               { return 0 }
-func runSelftestFor(id string, r *Report) int     { return 0 }
-func mutantOverlay(name string) (map[string][]byte, error) { return nil, nil }
 func freezeLayout(w *World) {}
